@@ -154,7 +154,7 @@ def run(ctx, model=None):
     for kind in (PR, P1):
         for pat in gen.all_patterns(3 if ctx.quick() else 4):
             games.append(gen.dead_shape_game(rng, kind, pat))
-    N = 150 if ctx.quick() else 3000
+    N = 150 if ctx.quick() else 12000
     for k in range(N):
         games.append(gen.stopping_game(rng))
     for k in range(30 if ctx.quick() else 200):
